@@ -105,20 +105,23 @@ func evaluateCondition(skel *Skeleton, orig []byte, cond *Condition) error {
 		return fmt.Errorf("condition: %w", err)
 	}
 
+	// A NaN operand is unordered: it is equal to nothing (so only != holds) and
+	// neither less nor greater than anything.
+	unordered := cmp == cmpUnordered
 	met := false
 	switch cond.Op {
 	case CondEqual:
-		met = cmp == 0
+		met = !unordered && cmp == 0
 	case CondNotEqual:
-		met = cmp != 0
+		met = unordered || cmp != 0
 	case CondGreaterThan:
-		met = cmp > 0
+		met = !unordered && cmp > 0
 	case CondGreaterThanOrEqual:
-		met = cmp >= 0
+		met = !unordered && cmp >= 0
 	case CondLessThan:
-		met = cmp < 0
+		met = !unordered && cmp < 0
 	case CondLessThanOrEqual:
-		met = cmp <= 0
+		met = !unordered && cmp <= 0
 	default:
 		return fmt.Errorf("%w: unknown condition op %d", ErrInvalidOp, cond.Op)
 	}
@@ -128,7 +131,8 @@ func evaluateCondition(skel *Skeleton, orig []byte, cond *Condition) error {
 	return nil
 }
 
-// compareLeafBytes returns -1 / 0 / 1 for a < b, a == b, a > b. Numeric
+// compareLeafBytes returns -1 / 0 / 1 for a < b, a == b, a > b (cmpUnordered when a
+// float operand is NaN). Numeric
 // comparisons are class-aware; string / bytes use byte-wise comparison; bool
 // uses canonical false<true ordering. Cross-class comparisons (numeric vs
 // non-numeric, or int vs float) return ErrTypeMismatch.
@@ -214,8 +218,13 @@ func cmpUint64(a, b uint64) int {
 	return 0
 }
 
+// cmpUnordered is the result of cmpFloat64 when an operand is NaN.
+const cmpUnordered = 2
+
 func cmpFloat64(a, b float64) int {
 	switch {
+	case a != a || b != b: // NaN is the only value that is not equal to itself
+		return cmpUnordered
 	case a < b:
 		return -1
 	case a > b:
